@@ -133,6 +133,13 @@ func (c Case) coq() string {
 		switch o.K {
 		case "join", "leave":
 			ops = append(ops, o.coq())
+		case "join-end": // the held connection registers only now
+			for _, b := range c.Ops {
+				if b.K == "join-begin" && b.N == o.N {
+					b.K = "join"
+					ops = append(ops, b.coq())
+				}
+			}
 		case "abort": // the connection is gone from then on
 			ops = append(ops, lib.App("OLeave", lib.N(o.N)))
 		case "send":
@@ -421,6 +428,16 @@ func runCase(k *hubkit.Kit, c *Case, res *lib.Result) []*hubkit.Peer {
 	expected := map[uint64]int{}
 	topicSeen := map[uint64]string{}
 	stalled := map[uint64]bool{}
+	type heldJoin struct {
+		release func()
+		ch      chan *hubkit.Peer
+	}
+	held := map[uint64]heldJoin{}
+	defer func() { // never leave a request held
+		for _, hj := range held {
+			hj.release()
+		}
+	}()
 	degraded := false // a wait has expired in this case: later steps do not wait long again
 	waitAll := func() {
 		slack := k.Slack
@@ -521,6 +538,28 @@ func runCase(k *hubkit.Kit, c *Case, res *lib.Result) []*hubkit.Peer {
 			waitAll()
 		case "pause":
 			time.Sleep(90 * time.Millisecond)
+		case "join-begin":
+			bid := fmt.Sprintf("bk-%d", o.N)
+			release := k.Hooks.Hold("ws.beforeDenyCheck", bid)
+			ch := make(chan *hubkit.Peer, 1)
+			go func(o Op) { ch <- k.JoinBuf(o.N, o.TT, o.Path, o.Scopes, digest, 0) }(o)
+			if !k.Hooks.Wait("ws.beforeDenyCheck", bid, 1, k.Slack) {
+				res.Count("join-begin:hook-not-reached")
+			}
+			held[o.N] = heldJoin{release, ch}
+		case "join-end":
+			if hj, ok := held[o.N]; ok {
+				hj.release()
+				p := <-hj.ch
+				peers[o.N] = p
+				order = append(order, p)
+				res.Count("join:held-then-" + map[bool]string{true: "registered", false: "refused-" + p.Refused}[p.Refused == ""])
+				if p.Refused == "" {
+					if st, ok := k.Status(); ok {
+						topicSeen[o.N] = st[p.UA].Topic
+					}
+				}
+			}
 		case "abort":
 			if p := peers[o.N]; p != nil {
 				k.Abort(p)
@@ -560,7 +599,7 @@ func oracle(c Case, idx int, peers []*hubkit.Peer, res *lib.Result) {
 		switch o.K {
 		case "send":
 			sentAt[o.ID] = i
-		case "join":
+		case "join", "join-end":
 			joinedAt[o.N] = i
 			realmOf[o.N] = realm(o.PX, o.TT)
 		}
@@ -905,6 +944,108 @@ func genAudience(r *lib.Rng, n int, total int) []Op {
 	return ops
 }
 
+// genLagOrphan (runs with the lagfull histories on the tiny-buffer relays): the connection that was
+// dropped as a slow reader outlives its topic: after the drop all other members of its topic leave,
+// a BRAND-NEW topic is created by fresh connections, and only then does the dropped-but-open
+// connection publish once more. Nobody on the new topic (or any other) may hear it.
+func genLagOrphan(r *lib.Rng) []Op {
+	tA, tB := "a", []string{"ab", "a/b", "b"}[r.Intn(3)]
+	rw := []string{"read", "write"}
+	var ops []Op
+	join := func(tt string, scopes []string, slow bool) uint64 {
+		nextName++
+		ops = append(ops, Op{K: "join", N: nextName, TT: tt, Path: "/session/" + tt, Scopes: scopes, Slow: slow})
+		return nextName
+	}
+	seq := 0
+	send := func(n uint64, tt string, fill int, nb bool) {
+		seq++
+		nextID++
+		ops = append(ops, Op{K: "send", N: n, TT: tt, MT: 1 + r.Intn(2), ID: nextID, Seq: seq, Fill: fill, NB: nb})
+	}
+	lag := join(tA, rw, true)
+	xs := []uint64{join(tA, rw, false), join(tA, rw, false)}
+	ys := []uint64{join(tB, rw, false), join(tB, rw, false)}
+	send(xs[0], tA, 100, false)
+	ops = append(ops, Op{K: "stall", N: lag})
+	for k := r.Range(10, 13); k > 0; k-- {
+		send(xs[r.Intn(len(xs))], tA, 1<<20, false)
+	}
+	for k := r.Range(3, 6); k > 0; k-- {
+		send(xs[r.Intn(len(xs))], tA, r.Range(40, 900), false)
+	}
+	for _, x := range xs { // the topic empties (the dropped connection is no member any more)
+		ops = append(ops, Op{K: "leave", N: x})
+	}
+	nextName++
+	tN := fmt.Sprintf("fresh%d", nextName)
+	ns := []uint64{join(tN, rw, false), join(tN, rw, false)}
+	if r.Bool() {
+		ns = append(ns, join(tN, []string{"read"}, false))
+	}
+	for k := r.Range(1, 3); k > 0; k-- {
+		send(lag, tA, r.Range(40, 200), true)
+	}
+	ops = append(ops, Op{K: "pause"})
+	send(ns[0], tN, 80, false)
+	send(ys[0], tB, 80, false)
+	send(ns[1], tN, 80, false)
+	ops = append(ops, Op{K: "pause"}, Op{K: "abort", N: lag}, Op{K: "pause"}, Op{K: "sync"})
+	send(ns[0], tN, 50, false)
+	return ops
+}
+
+// genSlotRace: a connection is HELD in the middle of admission (after its token was checked, before
+// the deny check and registration; verifhook point ws.beforeDenyCheck) while the last member of its
+// topic leaves and a brand-new topic is created by others; then it is let go. It must end up on the
+// topic of its token, alone, and hear nothing of the new topic - and vice versa.
+func genSlotRace(r *lib.Rng) []Op {
+	rw := []string{"read", "write"}
+	var ops []Op
+	join := func(tt string) uint64 {
+		nextName++
+		ops = append(ops, Op{K: "join", N: nextName, TT: tt, Path: "/session/" + tt, Scopes: rw})
+		return nextName
+	}
+	seq := 0
+	send := func(n uint64, tt string) {
+		seq++
+		nextID++
+		ops = append(ops, Op{K: "send", N: n, TT: tt, MT: 1 + r.Intn(2), ID: nextID, Seq: seq, Fill: r.Intn(80)})
+	}
+	keep := topics[r.Intn(len(topics))]
+	k1, k2 := join(keep), join(keep) // a topic that stays populated throughout
+	for round := r.Range(2, 3); round > 0; round-- {
+		nextName++
+		tA := fmt.Sprintf("old%d", nextName)
+		tB := fmt.Sprintf("new%d", nextName)
+		var members []uint64
+		for k := r.Range(1, 2); k > 0; k-- {
+			members = append(members, join(tA))
+		}
+		send(members[0], tA)
+		nextName++
+		x := nextName
+		ops = append(ops, Op{K: "join-begin", N: x, TT: tA, Path: "/session/" + tA, Scopes: rw})
+		for _, m := range members { // the last member leaves while x is on its way in
+			ops = append(ops, Op{K: "leave", N: m})
+		}
+		n1, n2 := join(tB), join(tB) // a brand-new topic is created meanwhile
+		ops = append(ops, Op{K: "join-end", N: x, TT: tA})
+		send(n1, tB)
+		send(x, tA)
+		send(n2, tB)
+		send(k1, keep)
+		if r.Bool() {
+			m2 := join(tA) // the old topic gets company again
+			send(m2, tA)
+			send(x, tA)
+		}
+		send(k2, keep)
+	}
+	return ops
+}
+
 type childIO struct {
 	Cap        int             `json:"cap"`
 	Cases      []Case          `json:"cases"`
@@ -1041,6 +1182,9 @@ func main() {
 		for i, m := 0, a.Pick(10, 120); i < m; i++ {
 			cases = append(cases, Case{Ops: genLagDrop(rng.Fork()), Kind: "lagdrop"})
 		}
+		for i, m := 0, a.Pick(20, 200); i < m; i++ {
+			cases = append(cases, Case{Ops: genSlotRace(rng.Fork()), Kind: "slotrace"})
+		}
 		// populations around the powers of two, and one well beyond 64, on one child relay
 		pops := []int{rng.Range(70, 130), 65, 33, 17, 9}
 		if a.Tier == "thorough" {
@@ -1056,6 +1200,9 @@ func main() {
 		for _, cp := range []int{1, 2} {
 			for i, m := 0, a.Pick(12, 60); i < m; i++ {
 				full[cp] = append(full[cp], Case{Ops: genLagFull(rng.Fork()), Kind: "lagfull", Cap: cp})
+			}
+			for i, m := 0, a.Pick(6, 40); i < m; i++ {
+				full[cp] = append(full[cp], Case{Ops: genLagOrphan(rng.Fork()), Kind: "lagfull", Cap: cp})
 			}
 		}
 	}
